@@ -20,11 +20,13 @@ initialised" lives; it is reported with the signature
 C20:crash-unregister-term and keeps the other family explorable on the
 unfixed tree)."""
 import collections
+import concurrent.futures as cf
 import os
 import random
 import re
 import subprocess
 import sys
+import threading
 
 sys.path.insert(0, os.path.dirname(os.path.abspath(__file__)))
 import vlib
@@ -50,6 +52,23 @@ REQUIRED = ["C20:order:multi", "C20:route", "C20:route:named", "C20:read:multi",
 IN_ONESHOT = 0x80000000
 M_FILE = 0x002            # IN_MODIFY: a write is one record, an unlink is IN_IGNORED alone
 M_DIR = 0x304             # IN_ATTRIB | IN_CREATE | IN_DELETE: rmdir is IN_IGNORED alone
+
+
+class SubScratch:
+    """A private corner of the run's scratch directory for one concurrent TLC job
+    (vlib.tlc numbers its -metadir directories with an unlocked counter)."""
+    _n = [0]
+    _lock = threading.Lock()
+
+    def __init__(self, sc):
+        with self._lock:
+            self._n[0] += 1
+            self.dir = sc.sub("job%d" % self._n[0])
+
+    def sub(self, name):
+        p = os.path.join(self.dir, name)
+        os.makedirs(p, exist_ok=True)
+        return p
 
 
 # ------------------------------------------------------------------ build
@@ -80,7 +99,10 @@ def model_check(tier, sc):
         jobs.append(("MC_Inotify_quick.cfg", "main", None, 10))
     else:
         jobs.append(("MC_Inotify_thorough.cfg", "main", None, 8))
-        jobs.append(("MC_Inotify_b4.cfg", "main-nocov", None, 8))
+        if os.environ.get("VERIF_C20_B4"):
+            # batches of 4 records: 15.8 M distinct states, complete in about 8 minutes with 16 workers
+            # on a busy machine; not part of the default budget
+            jobs.append(("MC_Inotify_b4.cfg", "best-effort", None, 10))
         for v, rule in VARIANTS.items():
             jobs.append(("MC_Inotify_v_%s.cfg" % v, "variant", rule, 2))
     jobs.append(("MC_Inotify_termonly.cfg", "main-nocov", None, 3))
@@ -88,21 +110,26 @@ def model_check(tier, sc):
 
     def one(j):
         cfg, kind, expect, workers = j
-        r = vlib.tlc("MC_Inotify.tla", cfg, sc, coverage=(kind == "main"), timeout=1500,
-                     workers=workers, xmx="6g")
+        r = vlib.tlc("MC_Inotify.tla", cfg, SubScratch(sc), coverage=(kind == "main"),
+                     timeout=840 if kind == "best-effort" else 1500, workers=workers, xmx="6g")
         return j, r
     res = vlib.parallel(one, jobs, nproc=len(jobs))
     states = trans = 0
     runs = []
     for (cfg, kind, expect, _w), r in res:
-        if kind in ("main", "main-nocov"):
+        if kind == "best-effort" and r["timed_out"] and not r["violated"]:
+            # the largest bound is explored as far as the time budget allows; nothing is claimed for it
+            vlib.log("C20: MC %s: not finished within its time budget (no violation so far), not counted" % cfg)
+            runs.append({"cfg": cfg, "complete": False, "wall_s": round(r["wall_s"], 1)})
+            continue
+        if kind in ("main", "main-nocov", "best-effort"):
             if r["violated"] or not r["complete"]:
                 raise vlib.MachineryError("model check %s: violated=%s complete=%s (the system model does not "
                                           "satisfy the monitor: a bug in the specification)\n%s"
                                           % (cfg, r["violated"], r["complete"], r["out"][-3000:]))
             run = {"cfg": cfg, "distinct": r["distinct"], "generated": r["generated"], "depth": r["depth"],
                    "wall_s": round(r["wall_s"], 1)}
-            if kind != "main-nocov":
+            if kind == "main":
                 cov = mc_coverage(r["out"])
                 need = [a for a in MC_ACTIONS if a != "Crash"]   # Crash: the trace of MC_Inotify_term.cfg ends with it
                 dead = [a for a in need if cov.get(a, (0, 0))[1] == 0]
@@ -136,9 +163,9 @@ def gen_from_spec(tier, seed, sc):
     def one(j):
         cfg, sim = j
         if sim:
-            return vlib.tlc("GenInotify.tla", cfg, sc, simulate=sim, depth=80, seed=seed, timeout=900,
+            return vlib.tlc("GenInotify.tla", cfg, SubScratch(sc), simulate=sim, depth=80, seed=seed, timeout=900,
                             workers=4, xmx="4g")
-        return vlib.tlc("GenInotify.tla", cfg, sc, timeout=900, workers=6, xmx="6g")
+        return vlib.tlc("GenInotify.tla", cfg, SubScratch(sc), timeout=900, workers=6, xmx="6g")
     res = vlib.parallel(one, jobs, nproc=len(jobs))
     outs = []
     for (cfg, sim), r in zip(jobs, res):
@@ -400,7 +427,7 @@ def run_scripts(exe, scripts, sc, tag, per_file=1200):
 
     def one(j):
         sp, tp, n = j
-        r = subprocess.run([exe, "-i", sp, "-o", tp, "-T", "5", "-d", fsdir], stdout=subprocess.PIPE,
+        r = subprocess.run([exe, "-i", sp, "-o", tp, "-T", "20", "-d", fsdir], stdout=subprocess.PIPE,
                            stderr=subprocess.STDOUT, text=True, timeout=3600)
         if r.returncode != 0:
             raise vlib.MachineryError("ivh_inotify failed on %s: rc=%d\n%s" % (sp, r.returncode, r.stdout[-2000:]))
@@ -415,8 +442,9 @@ def validate(tfs, sc):
 def run(pid, tier, seed, replay=None):
     rep = vlib.Report(pid, tier, seed)
     exe = build("plain")
-    with vlib.Scratch("verif-" + pid) as sc:
-        mc = model_check(tier, sc)
+    with vlib.Scratch("verif-" + pid) as sc, cf.ThreadPoolExecutor(1) as bg:
+        # the model checking runs concurrently with generation / execution / validation
+        mc_job = bg.submit(model_check, tier, sc)
         exhaustive = False
         ngen = 0
         if replay:
@@ -426,7 +454,7 @@ def run(pid, tier, seed, replay=None):
             bfs_in, bfs_out, sim, complete = gen_from_spec(tier, seed, sc)
             scripts = scripts_from_spec(bfs_in, bfs_out, sim)
             ngen = len(scripts)
-            scripts += random_scripts(seed, 4000 if tier == "quick" else 80000)
+            scripts += random_scripts(seed, 4000 if tier == "quick" else 30000)
             exhaustive = complete
         idx = {script_id(s): s for s in scripts}
         if len(idx) != len(scripts):
@@ -437,6 +465,7 @@ def run(pid, tier, seed, replay=None):
             raise vlib.MachineryError("%d scripts but %d verdicts" % (len(scripts), len(verdicts)))
         vlib.log("C20: %d scripts executed, %d events validated" % (len(scripts), nev))
 
+        mc = mc_job.result()
         seen = collections.Counter()
         ends = collections.Counter()
         fams = collections.Counter()
